@@ -377,7 +377,21 @@ int main(int argc, char **argv) {
 		std::cout << "sizeof_size_t " << sizeof(size_t) << "\n";
 		return 0;
 	}
-	if (argc < 3) { std::cerr << "usage: C18_bvs run|oracle <opsfile> | info\n"; return 2; }
+	if (argc >= 2 && std::string(argv[1]) == "probe") {
+		// createRandom*DefaultBitVectorState fill whole words; does a later resize() expose those bits?
+		std::mt19937 rng(7);
+		bool exposed = false;
+		for (int k = 0; k < 8 && !exposed; k++) {
+			auto t = createRandomDefaultBitVectorState(10, rng);
+			DefaultBitVectorState u; u.resize(10); u.copyRange(0, t, 0, 10);
+			bool eqBefore = (t == u);
+			t.resize(30); u.resize(30);
+			if (eqBefore && !(t == u)) exposed = true;
+		}
+		std::cout << "PROBE random_then_resize_exposes_stale_bits " << (exposed ? 1 : 0) << "\n";
+		return 0;
+	}
+	if (argc < 3) { std::cerr << "usage: C18_bvs run|oracle <opsfile> | info | probe\n"; return 2; }
 	bool oracle = std::string(argv[1]) == "oracle";
 	std::ifstream in(argv[2]);
 	if (!in) { std::cerr << "cannot open " << argv[2] << "\n"; return 2; }
